@@ -47,7 +47,10 @@ def pick_step(rng, env, fermi, names, counter, ops=None):
             rng.shuffle(perm)
             if rng.random() < 0.25:
                 perm = [q - x.ndim if rng.random() < 0.4 else q for q in perm]
-            return {"out": [out], "op": "transpose", "in": [n], "params": {"axes": perm}}
+            p = {"axes": perm}
+            if fermi and rng.random() < 0.15:
+                p["phase"] = False  # plain relabelling: pending signs travel with their sectors
+            return {"out": [out], "op": "transpose", "in": [n], "params": p}
         if op == "conj":
             p = {}
             if fermi and rng.random() < 0.4:
